@@ -179,6 +179,13 @@ def _shortcut_by_scenario(prog, rep, sc, ds):
         rep.undecided(f"{sc.name}: the local that carries the source found so far (None before the loop, returned after it) is not unique ({cands}); shortcut scenarios not decided")
         return
     FS = cands[0]
+    # identities of locals bound before the loop (sentinels created with object())
+    pre_sym = {}
+    for st in sc.node.body:
+        if st is loop:
+            break
+        if isinstance(st, ast.Assign) and len(st.targets) == 1 and isinstance(st.targets[0], ast.Name) and isinstance(st.value, ast.Name):
+            pre_sym[st.targets[0].id] = st.value.id
 
     def run(kind, slot_kinds, same):
         """paths: list of dict(events..., terminal)"""
@@ -208,6 +215,20 @@ def _shortcut_by_scenario(prog, rep, sc, ds):
                         return same
                     if isinstance(op, (ast.IsNot, ast.NotEq)):
                         return not same
+                # a local sentinel: `candidate = nothing` ... `if candidate is nothing:`
+                if isinstance(op, (ast.Is, ast.IsNot)) and isinstance(t.left, ast.Name) and isinstance(t.comparators[0], ast.Name) and FS not in (l, r):
+                    def root(nm):
+                        seen_ = set()
+                        while nm in state["sym"] and nm not in seen_:
+                            seen_.add(nm)
+                            nm = state["sym"][nm]
+                        return nm
+                    a_, b_ = root(t.left.id), root(t.comparators[0].id)
+                    if not a_.startswith("<") and not b_.startswith("<"):
+                        same_obj = a_ == b_
+                        return same_obj if isinstance(op, ast.Is) else not same_obj
+                    if a_.startswith("<slot") != b_.startswith("<slot") and "<?>" not in (a_, b_):
+                        return isinstance(op, ast.IsNot)     # an operand is not the sentinel object
                 if FS in (l, r):
                     other = r if l == FS else l
                     if other == "None":
@@ -238,6 +259,15 @@ def _shortcut_by_scenario(prog, rep, sc, ds):
                 if isinstance(tg, ast.Name):
                     v = st.value
                     vs = src(v)
+                    # what object the local denotes, for identity tests between locals
+                    if isinstance(v, ast.Name):
+                        state["sym"][tg.id] = v.id
+                    elif any(vs == f"{subj}.{sl}" for sl in slot_kinds):
+                        state["sym"][tg.id] = f"<slot:{vs}>"
+                    elif isinstance(v, ast.Call) and dotted(v.func) == "object" and not v.args:
+                        state["sym"].pop(tg.id, None)          # a fresh sentinel: its own root
+                    else:
+                        state["sym"][tg.id] = "<?>"
                     hit = [sl for sl in slot_kinds if vs == f"{subj}.{sl}"]
                     if not hit and isinstance(v, ast.Name) and state["alias"].get(v.id) is not None and tg.id != FS:
                         hit = [state["alias"][v.id]]        # alias of an alias
@@ -269,7 +299,7 @@ def _shortcut_by_scenario(prog, rep, sc, ds):
         for fs_none in (True, False):
             for differs in ((False,) if fs_none else (True, False)):
                 ex = Explorer(atom_truth, on_stmt)
-                st0 = {"events": [], "alias": {}, "bools": {}, "fs_none": fs_none, "differs": differs, "cmp_ops": [], "consulted": False, "compared": False}
+                st0 = {"events": [], "alias": {}, "sym": dict(pre_sym), "bools": {}, "fs_none": fs_none, "differs": differs, "cmp_ops": [], "consulted": False, "compared": False}
                 body = [st for st in loop.body if not (isinstance(st, ast.Assign) and isinstance(st.targets[0], ast.Name) and st.targets[0].id == subj)]
                 for state, term in ex.explore(body, st0):
                     out.append((fs_none, differs, state, term))
